@@ -64,7 +64,7 @@ class Float(float, AnyAtomicType):
             return super().__new__(cls, 'INF')
         elif _value < -3.4028235E38:
             return super().__new__(cls, '-INF')
-        elif -1e-37 < _value < 1e-37:
+        elif -2 ** -150 <= _value <= 2 ** -150:  # half of the smallest subnormal xs:float
             return super().__new__(cls, -0.0 if str(_value).startswith('-') else 0.0)
         return _value
 
